@@ -254,10 +254,10 @@ Qed.
 Lemma src_get_queue one dflt q0 ls s :
   src_get (SQueue one dflt q0) ls s =
     match queue s with
-    | [] => (match dflt with None => QNone | Some d => QRdd (parallelize d None) end, s)
+    | [] => (match dflt with None => QNone | Some d => QRdd (batch_rdd d) end, s)
     | b :: q' =>
         if one then (match b with Some x => QList x | None => QNone end, mkNs (ctime s) (crdd s) q' (fdone s))
-        else (QList (concat (map entry_items (queue s))), mkNs (ctime s) (crdd s) [] (fdone s))
+        else (QList (concat (map entry_items (queue s)), None), mkNs (ctime s) (crdd s) [] (fdone s))
     end.
 Proof.
   unfold src_get, queue_get_branch. destruct (queue s) as [|b q']; [reflexivity|].
@@ -273,7 +273,7 @@ Theorem queue_in_order g i dflt q0 :
     nth_error (ns (spec_hist g h (init g))) i = Some s /\
     queue s = skipn (length h) q0 /\
     (h <> [] -> crdd s = RRdd (match nth_error q0 (length h - 1) with
-                              | Some (Some b) => parallelize b None
+                              | Some (Some b) => batch_rdd b
                               | Some None => empty_rdd
                               | None => default_rdd dflt
                               end)).
